@@ -22,6 +22,8 @@ PROP = {
         {"name": "pool_cxx_reinit", "quick": 60000, "thorough": 1000000, "maxlen": 320},
         {"name": "pool_c_big", "quick": 30000, "thorough": 200000, "maxlen": 320},
         {"name": "pool_cxx_big", "quick": 20000, "thorough": 200000, "maxlen": 320},
+        {"name": "pool_c_huge", "quick": 1500, "thorough": 20000, "maxlen": 64},
+        {"name": "pool_cxx_huge", "quick": 1500, "thorough": 20000, "maxlen": 64},
     ],
     "fuzz": [{"name": "heap", "secs": 90, "maxlen": 1400}, {"name": "pool_cxx", "secs": 30, "maxlen": 320}],
 }
